@@ -20,6 +20,17 @@ def build(ctx, nopool):
                               wraps=WRAPS, libs=(), nopool=nopool)
 
 
+REAL_SRCS = ['events/events.c', 'events/events_immediate.c', 'events/events_network.c',
+             'events/events_network_selectstats.c', 'events/events_timer.c', 'datastruct/timerqueue.c',
+             'datastruct/ptrheap.c', 'datastruct/elasticarray.c', 'util/monoclock.c', 'util/warnp.c']
+
+
+def build_real(ctx):
+    """The loop on the real kernel: no interposition at all."""
+    objs = ctx.builder.lib('asan', REAL_SRCS)
+    return ctx.builder.driver('c04real', 'asan', ['c04_real.c'], objs, libs=())
+
+
 def shard(a):
     """Run programs [first, first+count) and check them.  Returns dict."""
     exe, seed, first, count, prop, mode = a[:6]
@@ -137,6 +148,18 @@ def run(ctx, prop):
             jobs.append((exe, ctx.seed * 1000003 + 17, i * per, per, prop, mode))
     results = core.pmap(shard, jobs)
     core.merge(ctx, results)
+    # the same loop on the real kernel (socketpairs, real poll and clock):
+    # inline oracles for the timing-independent rules of this property
+    rexe = build_real(ctx)
+    rper = ctx.n(12, 150)
+    rjobs = [(rexe, ctx.seed * 257 + 11, i * rper, rper, [prop.lower()], None, 600 if ctx.quick() else 3000)
+             for i in range(core.NCPU * 2)]
+    rres = core.pmap(core.selfgen_shard, rjobs, procs=core.NCPU * 2)
+    core.merge(ctx, rres)
+    ctx.cov['real_kernel_soak'] = ('%d programs on the real kernel (AF_UNIX socketpairs, real poll, CLOCK_MONOTONIC): '
+                                   'callbacks only while registered, sockets ready at callback entry, timers not early, '
+                                   'EEXIST/ENOENT (C04); immediate order, immediates before sockets and timers, status '
+                                   'propagation, nothing lost in the drain (C05)' % ctx.cov.get('real_programs', 0))
     for r in results[:2]:
         for s in r['samples']:
             ctx.add_sample(s[:1500])
